@@ -419,6 +419,23 @@ def check_histories(tier, seed):
         nr_, np__ = rnd.choice([1, 2, 2, 3]), rnd.choice([1, 1, 2, 3])
         return Reaction([rnd.choice(alphabet) for _ in range(nr_)], [rnd.choice(alphabet) for _ in range(np__)],
                         alpha=float(rnd.randint(1, 9)), reaction_type=RT.GAS_TWOBODY)
+    # directed: narrow, change, widen again (a reaction skipped twice must come back exactly once)
+    fresh()
+    try:
+        r1 = Reaction(["C", "H"], ["CH"], alpha=1.0, reaction_type=RT.GAS_TWOBODY)
+        r2 = Reaction(["O", "H"], ["CO"], alpha=2.0, reaction_type=RT.GAS_TWOBODY)
+        net = Network([r1, r2])
+        hist = ["Network([C+H->CH, O+H->CO])"]
+        for al in (["C", "H", "CH"], ["C", "H", "CH", "He"], [], ["O", "H", "CO"], []):
+            net.allowed_species = al
+            hist.append(f"allowed_species = {al}")
+            cases += 1
+            want = [r for r in (r1, r2) if not al or all(s.name in al for s in r.reactants + r.products)]
+            if sorted(f"{r:minimal}" for r in net.reaction_list) != sorted(f"{r:minimal}" for r in want):
+                V(f"allowed-setter-history: network holds {[f'{r:minimal}' for r in net.reaction_list]}, expected {[f'{r:minimal}' for r in want]}", list(hist))
+                break
+    except Exception as e:
+        V(f"operation-raises: allowed setter: {type(e).__name__}: {e}", [])
     nh = 40 if tier == "quick" else 400
     for h in range(nh):
         fresh()
